@@ -148,6 +148,47 @@ def elevation(v):
     return math.atan2(v[2], math.hypot(v[0], v[1]))
 
 
+POLE_BAND = 3e-8  # rad: an elevation obtained as arcsin(z / rho) cannot resolve a zenith distance below sqrt(2 eps) =
+#                   2.1e-8 rad (z / rho rounds to exactly 1), so "elevation == 90 deg" is undecidable inside this band
+
+
+def zenith_distance(v):
+    """Angle of the position part of ``v`` from the local vertical +Z (atan2: well conditioned at the pole)."""
+    return math.atan2(math.hypot(v[0], v[1]), v[2])
+
+
+def elevation_band(v):
+    """Rounding of an arcsin-based elevation of ``v``: two roundings of z / rho amplified by 1 / cos(el), never more
+    than sqrt(2 eps) (the value at the pole itself)."""
+    h = math.hypot(v[0], v[1])
+    if h == 0.0:
+        return POLE_BAND
+    return min(POLE_BAND, 8 * EPS * norm(v) / h)
+
+
+def azimuth_candidates(v):
+    """(list of azimuths a correct implementation may report for 6-vector ``v``, undefined?).
+
+    * generic direction: the bearing of the horizontal part of the POSITION, whatever the velocity is;
+    * exactly at the zenith: the heading of the horizontal velocity (the convention ``getAzimuth`` documents);
+    * zenith distance inside POLE_BAND (but not zero): whether the elevation "equals" 90 deg is a matter of rounding,
+      both of the above are admissible;
+    * no horizontal position AND no horizontal velocity (or exactly at the nadir): undefined, anything goes.
+    The first candidate is always ``azimuth(v)``.
+    """
+    h = math.hypot(v[0], v[1])
+    from_pos = wrap_0_2pi(math.atan2(v[1], -v[0]))
+    has_vel = math.hypot(v[3], v[4]) > 0.0
+    from_vel = wrap_0_2pi(math.atan2(v[4], -v[3]))
+    if is_zenith(v):
+        return [from_vel], not has_vel
+    if v[2] > 0 and zenith_distance(v) < POLE_BAND:
+        return ([from_pos, from_vel], False) if has_vel else ([from_pos], True)
+    if v[2] < 0 and h == 0.0:
+        return [from_pos], True
+    return [from_pos], False
+
+
 def wrapped_diff(x, y):
     """Signed difference x - y on the circle, in [-pi, pi] (IEEE remainder)."""
     return math.remainder(x - y, TWOPI)
